@@ -40,6 +40,7 @@ RULE = ("1-4 real Contest objects (PLURALITY/APPROVAL/SUPERMAJORITY/IRV x POLLIN
         "check_audit_parameters must reject, unequal sample lengths; non-trivial = at least one set op and at least "
         "two assertions in the audit; distinct = distinct canonical case")
 EXHAUSTIVE = {"quick": False, "thorough": False}
+RULE += "; option stream (n/15 more cases, own generator, OPTIONS_AUDIT.md): Audit / Stratum / Contest made by their constructors (error rates at the constructor defaults left out), the four operations called by keyword, set_p_values without cvr_sample for polling audits"
 
 SCF = ("APPROVAL", "PLURALITY", "SUPERMAJORITY", "IRV")
 
